@@ -167,6 +167,12 @@ func synOne(text string, tr *traceWriter) {
 			}
 		}()
 		r, err := synParser.Parse(text)
+		// the same parser asked the same string once more gives the same verdict
+		if r2, err2 := synParser.Parse(text); (err2 == nil && r2 != nil) != (err == nil && r != nil) {
+			e["ok"] = !(err == nil && r != nil)
+			e["reparse_ok"] = false
+			return
+		}
 		if err != nil || r == nil {
 			return
 		}
